@@ -564,7 +564,13 @@ pub fn run_fx_process(plan: FxPlan) -> FxObs {
     env.clock_tz_hours_west = plan.clock_tz;
     env.now_shift = plan.now_shift;
     let FxPlan { data, today, published_today, force, cache, mem_in, lookups, app_rows, app_files, app_console, app_legacy_date, app_date_fmt, net_faults, server_today, .. } = plan;
+    // The process finds its cache directory the way the command line tool does: $HOME, then
+    // util::os::home_dir_path() (which creates ~/.acb and makes it writable). No simulated process is
+    // running while the variable changes.
     let cache_dir = cache_dir_path();
+    if let Some(home) = cache_dir.parent() {
+        std::env::set_var("HOME", home);
+    }
     let out: ProcOut<Inner> = run_process(&env, move || {
         use acb::fx::io::{CsvRatesCache, InMemoryRatesCache, RateLoader, RatesCache};
         use acb::util::rw::WriteHandle;
@@ -575,7 +581,13 @@ pub fn run_fx_process(plan: FxPlan) -> FxObs {
         let cache_box: Box<dyn RatesCache> = match cache {
             CacheKind::Csv => {
                 mem_handle = None;
-                Box::new(CsvRatesCache::new(cache_dir, err.clone()))
+                let dir = match acb::util::os::home_dir_path() {
+                    Ok(d) => d,
+                    // (an injected mkdir/chmod fault: the tool would stop here; the simulation goes on
+                    // with the directory it expected, whose creation the cache write will try again)
+                    Err(_) => cache_dir,
+                };
+                Box::new(CsvRatesCache::new(dir, err.clone()))
             }
             CacheKind::Mem => {
                 let c = InMemoryRatesCache::new();
